@@ -6,6 +6,7 @@
 
 mod chain;
 mod framing;
+mod server;
 mod targets;
 mod util;
 mod wire;
@@ -56,6 +57,7 @@ fn main() {
         "framing" => cmd_framing(&args, seed, n, &out, &summary),
         "writing" => cmd_writing(&args, seed, n, &out, &summary),
         "chain" => cmd_chain(&args, seed, n, &out, &summary),
+        "server" => cmd_server(&args, seed, n, &out, &summary),
         other => {
             eprintln!("unknown subcommand {other:?}");
             std::process::exit(2);
@@ -210,5 +212,52 @@ fn cmd_chain(args: &[String], seed: u64, n: u64, out: &str, summary: &str) {
         summary,
         &json!({"scenarios": stats.scenarios, "items": stats.items, "held_checks": stats.held_checks,
                 "held_changed": stats.held_changed, "events": lines, "B": buffer_step(), "MAXB": buffer_max()}),
+    );
+}
+
+fn cmd_server(args: &[String], seed: u64, n: u64, out: &str, summary: &str) {
+    use server::*;
+    let mut r = Rng::new(seed ^ 0x5e12);
+    let mut scenarios: Vec<Scenario> = Vec::new();
+    if let Some(p) = arg_val(args, "--replay") {
+        for v in read_lines(&p) {
+            scenarios.push(Scenario::from_json(&v));
+        }
+    } else {
+        if let Some(p) = arg_val(args, "--behaviours") {
+            for (i, v) in read_lines(&p).iter().enumerate() {
+                scenarios.push(from_model_behaviour(v, format!("m{i}")));
+            }
+        }
+        let mode = arg_val(args, "--mode").unwrap_or_else(|| "healthy".into());
+        for i in 0..n {
+            let mut rr = r.fork();
+            let sid = format!("s{seed}-{i}");
+            scenarios.push(match mode.as_str() {
+                "healthy" => gen_healthy(&mut rr, sid, false),
+                "streams" => gen_healthy(&mut rr, sid, true),
+                "faulty" => gen_faulty(&mut rr, sid),
+                "fair" => gen_fair(&mut rr, sid, false),
+                "fairtrans" => gen_fair(&mut rr, sid, true),
+                o => panic!("unknown mode {o}"),
+            });
+        }
+    }
+    util::log_open(out);
+    let mut stats = Stats { scenarios: 0, handled: 0, writes: 0, exits: 0 };
+    let dump = arg_val(args, "--dump-scenarios");
+    let mut dumpw = dump.map(|p| std::io::BufWriter::new(std::fs::File::create(p).unwrap()));
+    for sc in &scenarios {
+        if let Some(w) = dumpw.as_mut() {
+            use std::io::Write;
+            writeln!(w, "{}", sc.to_json()).unwrap();
+        }
+        run(sc, &mut stats);
+    }
+    let lines = util::log_close();
+    util::write_json(
+        summary,
+        &json!({"scenarios": stats.scenarios, "writes": stats.writes, "exits": stats.exits, "events": lines,
+                "B": buffer_step(), "MAXB": buffer_max()}),
     );
 }
